@@ -19,7 +19,9 @@ meta = json.load(open(os.path.join(src, "meta.json")))
 res = {"property": prop, "summary": meta.get("summary"), "needs": meta.get("needs"), "ran": []}
 try:
     demo_src = [f for f in os.listdir(src) if f.startswith("demo")]
-    demo_loc = (meta.get("demo_location", "") or "").split(" ")[0].replace("/tmp/seed-" + prop + "/", "")
+    _loc = [t.strip("()`'\",;") for t in (meta.get("demo_location", "") or "").split() if ".go" in t]
+    demo_loc = (_loc[0] if _loc else "").replace("/tmp/seed-" + prop + "/", "").replace("<worktree root>/", "")
+    if demo_loc.startswith("/"): demo_loc = os.path.basename(demo_loc)
     demo_cmd = meta.get("demo_cmd", "")
     k = os.path.basename(os.path.normpath(src))
     def place_demo():
